@@ -666,11 +666,13 @@ where
     }
 
     fn update_needed_len(&mut self) {
-        self.needed_input_size = (self.last_index as f32
-            + self.chunk_size as f32
-                / (0.5 * self.resample_ratio as f32 + 0.5 * self.target_ratio as f32)
-            + self.interpolator.len() as f32)
-            .ceil() as usize;
+        // The position advances by t0 + k * (t1 - t0) / chunk_size for k = 1..=chunk_size.
+        let t_ratio = 1.0 / self.resample_ratio;
+        let t_ratio_end = 1.0 / self.target_ratio;
+        let advance = self.chunk_size as f64 * t_ratio
+            + (t_ratio_end - t_ratio) * (self.chunk_size as f64 + 1.0) / 2.0;
+        self.needed_input_size =
+            (self.last_index + advance + self.interpolator.len() as f64).ceil() as usize;
     }
 }
 
